@@ -3,6 +3,22 @@
   no source position, positions never take part in equality, and — the C19 statement for this
   delivery route — the reader, given the same term written as text, returns exactly the value
   L-notation builds, cursors aside.
+
+  Proved in general (∀ terms / ∀ values):
+    * `build_has_no_positions`, `stripPos_idempotent`, `stripPos_build`, `equalQ_ignores_positions`,
+      `equalQ_stripPos_self`;
+    * `HM_nested_maps_converted` (∀ entry lists, every depth), `buildHM_cons`;
+    * `print_then_read_exact`: the C06 round trip sharpened from `structEqB` to equality after erasing
+      cursors (re-proved over the reader lemmas of Proofs/PrintRead*.lean; scanner part reused as is);
+    * `toText_eq_print`, `build_readable`, `build_data`: for well-formed terms the written text IS
+      `PRINT (build t)` and `build t` is a readable data value — code terms included, symbols print as
+      their names;
+    * `read_text_eq_build` / `read_text_eq_build'` / `deliveries_equalQ` / `read_text_any_entry_order`:
+      C19 for this route, ∀ well-formed terms, ∀ reader configurations without a placeholder table.
+  By kernel evaluation only (`decide`): the three programs of lnotation_test.go (`test_programs_same`,
+  `fib_read_eq_build`, `fib_text`), the data sample, the non-vacuity of `wf`, what happens outside `wf`
+  (`not_wf_deliveries`), and the raw-map counterexamples (`V_keeps_raw_map`,
+  `HM_keeps_raw_map_inside_slices` by unfolding, `raw_map_in_slice_deliveries_differ` by evaluation).
 -/
 import LispModel.LNot
 import LispModel.Equal
@@ -881,5 +897,19 @@ theorem not_wf_deliveries :
     sameB {} (.L [.S "a b"]) = false ∧ sameB {} (.S "nil") = false ∧
     sameB {} (.HM [("a", .int 1), ("a", .int 2)]) = true ∧ sameB {} (.SET ["x", "x"]) = true := by
   decide +kernel
+
+/-! ### 10. which constructor keeps the caller's slice -/
+
+/-- only `L` with at least one argument returns a value whose backing array is the caller's slice -/
+theorem sharesArgs_iff (t : LTerm) : sharesArgs t = true ↔ ∃ a r, t = .L (a :: r) := by
+  constructor
+  · intro h
+    cases t with
+    | L args =>
+      cases args with
+      | nil => cases h
+      | cons a r => exact ⟨a, r, rfl⟩
+    | _ => cases h
+  · rintro ⟨a, r, rfl⟩; rfl
 
 end LispModel.Proofs.LNotLaws
